@@ -28,6 +28,9 @@ type c20Step struct {
 	MoveOps bool `json:"moveOps,omitempty"` // the same operations, now in a file of another name: only sourceLocation in the exported operations changes
 }
 type c20Case struct {
+	// ExportName: file name of the exported operations ("" = operations.json); names that sort BEFORE generated.go
+	// are written first by anything that walks the outputs in name order
+	ExportName string `json:"exportName,omitempty"`
 	Export bool      `json:"export"`
 	Steps  []c20Step `json:"steps"`
 }
@@ -50,10 +53,12 @@ func c20Ops(n int) string {
 	return sb.String()
 }
 
+var c20ExportName = "operations.json"
+
 func c20Write(dir string, st c20Step, export bool) {
 	yaml := "schema: schema.graphql\noperations:\n- q.graphql\ngenerated: generated.go\npackage: gen\n"
 	if export {
-		yaml += "export_operations: operations.json\n"
+		yaml += "export_operations: " + c20ExportName + "\n"
 	}
 	schema := c20Schema
 	ops := c20Ops(st.NOps)
@@ -133,6 +138,9 @@ func runC20(c *Ctx) {
 	for i := 0; i < n; i++ {
 		r := c.Rng("case", i)
 		cs := c20Case{Export: r.Chance(2, 3)}
+		if r.Chance(1, 3) {
+			cs.ExportName = proto.Pick(r, []string{"a-operations.json", "exported.json"})
+		}
 		k := 3 + r.Intn(4)
 		for j := 0; j < k; j++ {
 			st := c20Step{NOps: 1 + r.Intn(4)}
@@ -150,6 +158,10 @@ func runC20(c *Ctx) {
 			cs.Steps = append(cs.Steps, c20Step{NOps: 1})
 		}
 		c20Run(c, cs)
+	}
+	// failures found only when the Go code is assembled/formatted, with an export file whose name sorts before generated.go
+	for _, f := range []string{"gen-gofmt-error", "gen-keyword-var", "gen-unknown-scalar"} {
+		c20Run(c, c20Case{Export: true, ExportName: "a-operations.json", Steps: []c20Step{{NOps: 2}, {NOps: 3, Fault: f}, {NOps: 1}}})
 	}
 	// a successful run after a successful run whose generated Go code is byte-identical but whose exported operations
 	// differ (the operations moved to a file of another name), and back
@@ -179,7 +191,11 @@ func c20Run(c *Ctx, cs c20Case) {
 	os.MkdirAll(dir, 0o755)
 	defer os.RemoveAll(dir)
 	gen := filepath.Join(dir, "generated.go")
-	exp := filepath.Join(dir, "operations.json")
+	c20ExportName = "operations.json"
+	if cs.ExportName != "" {
+		c20ExportName = cs.ExportName
+	}
+	exp := filepath.Join(dir, c20ExportName)
 	other := filepath.Join(dir, "unrelated.txt")
 	os.WriteFile(other, []byte("do not touch"), 0o644)
 	cfgPath := filepath.Join(dir, "genqlient.yaml")
